@@ -76,6 +76,13 @@ def lan_streams(ctx, rng, thorough):
                     m = bytearray(pkt)
                     m[i] ^= 1 << b
                     through_lan(ctx, rng, version, frame, bytes(m), f"bit {b} of byte {i}")
+            L = len(pkt)
+            for name, lo, hi in (("signature", L - 16, L), ("signature second half", L - 8, L), ("payload", 40, L - 16), ("header", 6, 12)):
+                for fill in (0x00, 0xFF):
+                    m = bytearray(pkt)
+                    m[lo:hi] = bytes([fill]) * (hi - lo)
+                    if bytes(m) != pkt:
+                        through_lan(ctx, rng, version, frame, bytes(m), f"{name} := {fill:02x}..")
             for k in sorted(set(rng.sample(range(len(pkt)), 12)) | {0, 5, 6, 39, 40, len(pkt) - 16, len(pkt) - 1}):
                 through_lan(ctx, rng, version, frame, pkt[:k], f"first {k} bytes")
 
@@ -145,6 +152,18 @@ def run(ctx):
                     m = bytearray(pkt)
                     m[i] = v
                     muts.append(("substitute", bytes(m), f"byte {i} := {v}"))
+        # a whole field blanked or saturated (a decoder that skips a check when a field "is not there"): start marker,
+        # length, header, timestamp, device id, encrypted payload, signature, and halves of the last two
+        L = len(pkt)
+        fields = [("marker", 0, 2), ("length", 4, 6), ("header", 6, 12), ("timestamp", 12, 20), ("device id", 20, 28),
+                  ("reserved", 28, 40), ("payload", 40, L - 16), ("payload first block", 40, 56), ("signature", L - 16, L),
+                  ("signature first half", L - 16, L - 8), ("signature second half", L - 8, L), ("payload+signature", 40, L)]
+        for name, lo, hi in fields:
+            for fill in (0x00, 0xFF, 0x10):
+                m = bytearray(pkt)
+                m[lo:hi] = bytes([fill]) * (hi - lo)
+                if bytes(m) != pkt and len(m) == L:
+                    muts.append(("blanked", bytes(m), f"{name} := {fill:02x}.."))
         # random multi-byte corruptions
         for _ in range(300 if not thorough else 3000):
             m = bytearray(pkt)
